@@ -7,7 +7,7 @@ import json, os, re
 from collections import Counter
 
 PKG = "vcr/pe"
-HARNESS = ["vcr/pe/zz_verif_c12_test.go"]
+HARNESS = ["vcr/pe/zz_verif_c12_test.go", "vcr/pe/zz_verif_c12_envjson_test.go"]
 # consumer legs: the real callers of vcr/pe on the verifier side (auth/api/iam) and on the wallet side (vcr/holder)
 IAM_PKG, IAM_HARNESS = "auth/api/iam", ["auth/api/iam/zz_verif_c12_iam_test.go"]
 HOLDER_PKG, HOLDER_HARNESS = "vcr/holder", ["vcr/holder/zz_verif_c12_holder_test.go", "vcr/holder/zz_verif_c12_formats_test.go"]
@@ -26,7 +26,10 @@ REQUIRED_DEEP = ["fact_regex_compiled_as_ecmascript", "ecma_anchored_accepts_iff
                  "fact_resolve_input_descriptor_values_source",
                  "values_both_mem", "match_params_sound", "match_formats_sound", "formats_match_sound", "presenter_format_shared",
                  "fact_presenter_build_submission_source", "fact_formats_match_source", "fact_formats_normalize_source", "fact_formats_constructors_source",
-                 "registration_rejects_surplus", "registration_total", "fact_registration_source"]
+                 "registration_rejects_surplus", "registration_total", "fact_registration_source",
+                 "fact_envelope_as_is_bytes", "fact_envelope_unmarshal_source", "fact_envelope_marshal_source", "fact_try_parse_json_array_source", "fact_parse_envelope_source",
+                 "envelope_unmarshal_total", "envelope_array_iff", "envelope_single_iff", "envelope_string_wrapping_transparent", "envelope_json_round_trip", "envelope_marshal_form",
+                 "rematch_constraints", "rematch_stable_basic", "wallet_verifier_agree_basic_unambiguous", "disagree_witness_is_ambiguous"]
 REQUIRED = ["pe_total_match_raw", "pe_total_build_raw", "pe_total_credentials_required_raw", "pe_total_resolve_fields_raw",
             "old_code_panics_on_nil_entry", "fact_nil_entries_checked", "pe_total_match", "pe_total_build", "pe_total_validate", "pe_total_resolve_fields",
             "match_sound", "filter_sound_and_complete",
@@ -368,7 +371,7 @@ def sr_pick_without_max(sr):
 def run(ctx):
     del ECMA_TABLE_DISAGREE[:]
     facts = ctx.facts()
-    thms = ctx.build_and_audit(["NutsProofs.Props.C12", "NutsProofs.Props.C12Ecma", "NutsProofs.Props.C12Consumer", "NutsProofs.Props.C12Formats", "NutsProofs.Props.C12Registration"])
+    thms = ctx.build_and_audit(["NutsProofs.Props.C12", "NutsProofs.Props.C12Ecma", "NutsProofs.Props.C12Consumer", "NutsProofs.Props.C12Formats", "NutsProofs.Props.C12Registration", "NutsProofs.Props.C12Envelope", "NutsProofs.Props.C12Agree"])
     for r in REQUIRED + REQUIRED_DEEP:
         if not any(t.endswith("Props." + r) for t in thms):
             ctx.oblige("thm-present:" + r, False, "theorem missing or its module does not build")
@@ -453,6 +456,44 @@ def run(ctx):
             case, case_line = op, ops_raw[i]
             last_build = None
             retbl = ecma_retbl({(p, s): (k, v) for p, s, k, v in op.get("re", [])})
+            continue
+        if kind == "envjson":
+            # Envelope.UnmarshalJSON / MarshalJSON routing, judged from the TEXT with Python's own JSON reader (the go-did / jwx verdicts per byte string are the op's data)
+            text, eb = op.get("envText", ""), op.get("envBytes") or {}
+            def single_ok(x):
+                return x.get("vp") == "jwt" or (x.get("vp") == "ld" and bool(x.get("json")))
+            try:
+                outer = json.loads(text); outer_ok = True
+            except ValueError:
+                outer, outer_ok = None, False
+            inner = outer if isinstance(outer, str) else text
+            try:
+                inner_v = json.loads(inner); inner_ok = True
+            except ValueError:
+                inner_v, inner_ok = None, False
+            if not outer_ok:
+                want_e = "envjson err marshal=none again=none"
+            elif inner_ok and isinstance(inner_v, list):
+                ents = eb.get("entries") or []
+                okall = len(ents) == len(inner_v) and all(single_ok(e["asString"] if isinstance(v, str) else e["asMarshalled"]) for e, v in zip(ents, inner_v))
+                want_e = (f"envjson ok array:{len(inner_v)}" if okall else "envjson err") 
+            else:
+                want_e = "envjson ok single" if single_ok({"vp": eb.get("vp"), "json": inner_ok}) else "envjson err"
+            if want_e.startswith("envjson ok"):
+                want_e += " marshal=" + ("asis" if inner[:1] in ("[", "{") else "quoted") + " again=same"
+            elif want_e == "envjson err":
+                want_e = "envjson err marshal=none again=none"
+            cls = ("wrapped-" if isinstance(outer, str) else "") + ("invalid" if not inner_ok else "array" if isinstance(inner_v, list) else "object" if isinstance(inner_v, dict) else "scalar") + ":" + line.split(" ")[1] + ("" if " marshal=" not in line else ":" + line.split(" marshal=")[1].split(" ")[0])
+            counts["envjson:" + cls] += 1
+            bad_contract = (inner == "" and (eb.get("vp") != "bad" or eb.get("top") != "invalid")) or (eb.get("vp") == "jwt" and inner[:1] in ("[", "{"))
+            if line != want_e or bad_contract:
+                what_e = "library contract of envelope_json_round_trip broken (empty text accepted / JWT verdict on a text starting with [ or {)" if bad_contract and line == want_e else \
+                    f"Envelope JSON routing: got '{line}', the text requires '{want_e}' (array texts go to the array branch with every entry parsed, a JSON string is unwrapped, the stored form reads back as the same envelope)"
+                sig = "C12:envjson:" + cls + ":want-" + want_e.split(" marshal=")[0].replace("envjson ", "").replace(" ", "-")
+                if sig not in seen_sig:
+                    seen_sig[sig] = ctx.violation(sig, what_e + f" (op line {i})", "envjson.jsonl", ops_raw[i] + "\n")
+                if seen_sig[sig]:
+                    oracle_bad += 1
             continue
         if kind == "vpformat":
             sup = op.get("supported") or []
